@@ -94,7 +94,7 @@ def rule_pair(ctx):
     r = RuleResult('PAIR', 'announced indices are dense and announced before use: every insertion into a name/source de-duplication '
                            'map stores `len()` of that same map and is post-dominated by the announcement of that very value to the '
                            'caller\'s callback of the matching kind')
-    r.floor = 10
+    r.floor = 4
     for b in f.body_list:
         if b.promoted is not None:
             continue
@@ -133,7 +133,7 @@ def rule_idx(ctx):
     r = RuleResult('IDX', 'composites emit only indices of the numbering they announce: per index kind (source / name) a composite '
                           'either forwards the child\'s numbering unchanged or renumbers through its tables, and every OriginalLocation it '
                           'builds takes that index from the matching origin (never a child-local index in a renumbered space)')
-    r.floor = 12
+    r.floor = 8
     comps, ol = composites(f)
     if len(comps) < 3:
         raise anchors.AnchorMissing('expected >= 3 composite streamers (concat, replace, combined), found %d' % len(comps))
@@ -202,7 +202,7 @@ def rule_ident(ctx):
     f = ctx.facts()
     r = RuleResult('IDENT', 'OriginalSource leaves emit identity mappings (original line/column are the very values reported as '
                             'generated line/column, source index 0, no name) and announce exactly (index 0, its name, its own text)')
-    r.floor = 5
+    r.floor = 3
     osrc = anchors.adt_by_name(f, 'OriginalSource')
     st = anchors.trait_path(f, 'StreamChunks')
     ol = anchors.adt_by_name(f, 'OriginalLocation')['path']
@@ -308,7 +308,7 @@ def rule_root(ctx):
     f = ctx.facts()
     r = RuleResult('ROOT', 'every streaming variant that announces the sources of a map applies sourceRoot, announces the enumeration '
                            'index of that very iteration, and attaches the content stored under that index')
-    r.floor = 4
+    r.floor = 1
     ann, sm = map_announcers(f)
     for b, params, src_cbs in ann:
         for pt, t, ops in src_cbs:
@@ -360,7 +360,7 @@ def rule_eager(ctx):
     r = RuleResult('EAGER', 'eager announcers announce before they can deliver: every point that can deliver a mapped chunk is dominated '
                             'by the completed announcement loop(s); a variant that never announces names overwrites the name index with '
                             'None before every emission')
-    r.floor = 5
+    r.floor = 3
     ann, sm = map_announcers(f)
     osrc = anchors.adt_by_name(f, 'OriginalSource')['path']
     st = anchors.trait_path(f, 'StreamChunks')
@@ -441,7 +441,7 @@ def rule_advance(ctx):
     f = ctx.facts()
     r = RuleResult('ADVANCE', 'ReplaceSource advances the original column of a split segment only under the content check (the recorded '
                               'original text equals the skipped generated text)')
-    r.floor = 3
+    r.floor = 1
     R = anchors.replace_source(f)
     st = anchors.trait_path(f, 'StreamChunks')
     ol = anchors.adt_by_name(f, 'OriginalLocation')['path']
@@ -497,6 +497,7 @@ def rule_advance(ctx):
                 continue
             # control dependence: a dominating switch whose discriminant derives from filter(<closure reading content>)
             ok = False
+            stale = False
             for d in m.dom().get(pt[0], set()):
                 t = m.term(d)
                 if t['k'] != 'switch' or t['d']['k'] not in ('copy', 'move'):
@@ -506,7 +507,23 @@ def rule_advance(ctx):
                     if x[0] == 'call' and x[1].rsplit('::', 1)[-1] in ('filter', 'is_some_and', 'then', 'then_some') and len(x[2]) >= 2:
                         cl = org.closure_body(x[2][-1])
                         if cl is not None and reads_content(cl):
-                            ok = True
+                            # the verdict must be computed here, for this site's text: the predicate returns the result of the
+                            # content check itself, not a verdict remembered from another site
+                            fresh = True
+                            for y in strip(cl.expr_of_local(0), through_calls=set()):
+                                if y[0] not in ('call', 'icall'):
+                                    fresh = False
+                                    continue
+                                tt = cl.term(y[3][0]) if y[0] == 'call' else None
+                                tgt = None
+                                if tt is not None and tt.get('callee'):
+                                    tgt = f.body(tt['callee'].get('resolved') or tt['callee']['path'])
+                                if tgt is None or not reads_content(tgt):
+                                    fresh = False
+                            if fresh:
+                                ok = True
+                            else:
+                                stale = True
                     elif x[0] == 'call':
                         cb = f.body(x[1])
                         if cb is not None and reads_content(cb):
@@ -514,7 +531,9 @@ def rule_advance(ctx):
             r.site('%s: original_column advanced under the content check' % m.path, s['s'], 'ok' if ok else 'violation')
             if not ok:
                 r.violation('%s:original_column' % roots[0].path, s['s'], m.path,
-                            'original column is advanced without a dominating content check: for an inner source whose original text '
-                            'differs from the generated text (SourceMapSource) columns are pushed right by generated-text lengths')
+                            ('original column is advanced under a content-check verdict that is remembered from another site, not '
+                             'computed for the text skipped here' if stale else
+                             'original column is advanced without a dominating content check') + ': for an inner source whose original '
+                            'text differs from the generated text (SourceMapSource) columns are pushed right by generated-text lengths')
     r.check_floor()
     return r
